@@ -10,6 +10,85 @@ def established_13(c):
     return c["cdone"] and c["sdone"] and c["cerr"] == "ok" and c["serr"] == "ok"
 
 
+EARLY_BOUND_MS = 3000  # two retransmission rounds at the 1 s initial interval (1 s observed on the tree)
+
+
+def monitor_early(c):
+    """C02's predicate on one case of the early-record leg"""
+    if c.get("livelock"):
+        return "livelock: an endpoint busy-loops (virtual time cannot advance, neither side completes)"
+    if not established_13(c):
+        return "handshake did not complete: client=%s server=%s after %d ms" % (
+            c["cerr"] if c["cdone"] else "pending", c["serr"] if c["sdone"] else "pending", c["tdone"])
+    if not c["data_ok"]:
+        return "handshake completed but application data does not flow both ways"
+    if c["pattern"] != "none" and c["tdone"] - c["tfault"] > EARLY_BOUND_MS:
+        return "late: completion took %d ms after the last fault (bound %d ms)" % (c["tdone"] - c["tfault"], EARLY_BOUND_MS)
+    return None
+
+
+def early_replay(c):
+    kinds = {d["idx"]: "%s:%s" % (d["side"], d["kind"]) for d in c.get("window") or []}
+    r = {"how": "go test TestVerifC02Early (leg early): DTLS 1.2 handshake in the synctest lab, variant %s (MTU %d); the first "
+                "transmissions of the %s's final flight listed in `window` are " % (c["variant"], c["mtu"], c["flight"]),
+         "variant": c["variant"], "mtu": c["mtu"], "pattern": c["pattern"], "flight": c["flight"],
+         "window": [kinds[d["idx"]] + "#%d" % d["idx"] for d in c.get("window") or []],
+         "next_epoch_record_before_its_ccs": c.get("fin_early"),
+         "outcome": {k: c.get(k) for k in ("cdone", "sdone", "cerr", "serr", "tfault", "tdone", "data_ok", "livelock")}}
+    if c["pattern"] == "perm":
+        r["how"] += "delivered in the order `delivery_order` (pure reordering, nothing lost), every other datagram in order"
+        r["delivery_order"] = [kinds.get(i, "?") + "#%d" % i for i in c["order"] or []]
+    elif c["pattern"] == "loss":
+        r["how"] += "lost once where listed in `lost` (pure loss), every other datagram and every retransmission delivered"
+        r["lost"] = [kinds.get(i, "?") + "#%d" % i for i in c["lost"] or []]
+    if c.get("spinning"):
+        r["spinning_goroutines"] = c["spinning"]
+    return r
+
+
+def run_early(chk):
+    """leg early: small MTUs (48..80), every permutation / loss subset (<= 2) of the tail of the final flights: a
+    next-epoch record (Finished) reaches the receiver before its ChangeCipherSpec"""
+    out = vlib.out_path("c02early")
+    rc, o = vlib.go_test(".", "^TestVerifC02Early$", {"VERIF_SEED": chk.seed, "VERIF_TIER": chk.tier, "VERIF_OUT": out},
+                         tags=["c02"], timeout=3000)
+    cases = vlib.read_jsonl(out)
+    vlib.cleanup(out)
+    found = False
+    live = [c for c in cases if c.get("livelock")]
+    if rc != 0 and not live:
+        kind = vlib.classify_go_failure(o)
+        if kind == "panic":
+            found = True
+            chk.finding("handshake (early records)", {"monitor": "panic", "leg": "early"},
+                        "panic during small-MTU handshakes with early next-epoch records", {"output": o[-4000:]})
+        else:
+            chk.broken("correspondence harness TestVerifC02Early no longer runs against /repo (%s)" % kind, o)
+    fails = {}
+    for c in cases:
+        m = monitor_early(c)
+        if m:
+            fails.setdefault((m.split(":")[0], c["pattern"], bool(c.get("fin_early"))), []).append((c, m))
+    for (mon, pat, fe), cs in sorted(fails.items()):
+        c, m = min(cs, key=lambda x: (len(x[0].get("window") or []), x[0]["mtu"]))
+        found = True
+        chk.finding("conn.go early-record queue (handleQueuedPackets / handleFutureLegacyPacket) + fsm12",
+                    {"leg": "early", "monitor": mon, "pattern": pat, "next_epoch_record_before_ccs": fe},
+                    "%s [variant %s, %s %s of the %s's final flight; %d case(s) with this outcome]" % (
+                        m, c["variant"], pat, (c["order"] if pat == "perm" else c["lost"]), c["flight"], len(cs)),
+                    early_replay(c))
+    nontriv = [c for c in cases if c["pattern"] != "none"]
+    chk.count("early", len(cases), [(c["variant"], c["pattern"], tuple(c["order"] or []), tuple(c["lost"] or [])) for c in nontriv],
+              samples=[{"variant": c["variant"], "pattern": c["pattern"], "order": c["order"], "lost": c["lost"],
+                        "fin_early": c["fin_early"], "recovery_ms": c["tdone"] - c["tfault"]} for c in nontriv[-3:]])
+    chk.leg_info("early", variants=len(set(c["variant"] for c in cases)),
+                 next_epoch_record_before_ccs=sum(1 for c in nontriv if c.get("fin_early")),
+                 max_recovery_ms=max([c["tdone"] - c["tfault"] for c in nontriv] or [0]),
+                 note="MTU 48..80, X25519/P-256, certificate/PSK/ECDHE-PSK, client auth, resumed; every permutation of the tail "
+                      "of each final flight and every loss subset (<= 2) of it; real-time watchdog for busy-looping endpoints")
+    return found
+
+
 def run(chk):
     proved = chk.prove(extra_targets=["theories/Hs/Abs12Run.vo"])
     out = vlib.out_path("c02")
@@ -68,6 +147,7 @@ def run(chk):
                                 cl, sv, c["variant"], c["mask"], len(cs)),
                             {"case": {k: c[k] for k in ("variant", "mask", "cdone", "sdone", "cerr", "serr", "tdone")},
                              "all_masks": [(x["variant"], x["mask"]) for x in cs][:40]}) or found
+    found = run_early(chk) or found
     if proved:
         bad = c02lib.accept(chk, "c02", cases)
         for i in (bad or [])[:1]:
